@@ -65,6 +65,10 @@ def _work(idx):
                               "tb": traceback.format_exc(limit=6)})
         return out
     lost_keys_all = set()
+    if opts.get("solutions_only"):
+        # the z3-level projection is not defined for this problem (a cumulative worker listed in a selection has
+        # one busy interval per task, not one per unit): only what the library RETURNS is judged, by TimelineTrace
+        opts = dict(opts, soundness=False, completeness=False, indicators=False, buffers=False, replay_per_problem=0)
     try:
         if opts.get("soundness", True):
             w, inc = A.soundness(p, b, s, V, max_witnesses=opts.get("max_witnesses", 6), assertions=smt_assertions)
@@ -133,6 +137,15 @@ def _work(idx):
                     out["optimum"] = {"got": got, "best": best}
             if sol and not p["user_horizon"] and max([t.end for t in sol.tasks.values()] + [0]) > p["H"]:
                 out["outside_window"] += 1  # no user horizon: the library may go beyond the bounded window
+            elif sol and opts.get("solutions_only"):
+                k = 0
+                while sol and k < 4:
+                    sv = PJ.from_solution(p, sol)
+                    out["traces"].append({"kind": "default" if k == 0 else f"alternative{k}", "trace": PJ.to_trace(p, idx + 1, sv, sol),
+                                          "solution": json.loads(sol.to_json(compact=True))})
+                    k += 1
+                    with B.silence():
+                        sol = s.find_another_solution()
             elif sol:
                 sv = PJ.from_solution(p, sol)
                 out["traces"].append({"kind": "default", "trace": PJ.to_trace(p, idx + 1, sv, sol),
